@@ -423,6 +423,9 @@ def str_concat(a, b):
     return mk_str(str_parts(a) + str_parts(b))
 
 
+_STR_REP = z3.Function('str_rep', z3.StringSort(), z3.IntSort(), z3.StringSort())
+
+
 def str_repeat(st, s, n):
     if isinstance(n, bool):
         n = int(n)
@@ -435,7 +438,8 @@ def str_repeat(st, s, n):
     if isinstance(s, str):
         if s == "":
             return ""
-        r = st.fresh_str('rep')
+        # a function of (s, count): equal counts give equal strings (congruence)
+        r = _STR_REP(z3.StringVal(s), z3.If(zn > 0, zn, 0))
         st.assume(z3.InRe(r, z3.Star(z3.Re(z3.StringVal(s)))))
         st.assume(z3.Length(r) == z3.If(zn > 0, zn, 0) * len(s))
         return SStr([Sq(r)])
